@@ -789,7 +789,7 @@ func TestStress(t *testing.T) {
 			for i := 0; i < no; i++ {
 				select {
 				case <-obsDone:
-				case <-time.After(60 * time.Second):
+				case <-time.After(300 * time.Second): // generous backstop (loaded machines)
 					fail("watchable-observer-stuck", fmt.Sprintf("an observer loop did not reach the final value %d", n))
 				}
 			}
